@@ -4,6 +4,9 @@
 -/
 import VsgModel.Base.KV
 import VsgModel.Base.Align
+import VsgModel.Base.Indent
+import VsgModel.Base.BlankLine
+import VsgModel.Base.Whitespace
 import VsgModel.Generated.Classes
 namespace Vsgm.Base
 open Vsgm
@@ -14,18 +17,133 @@ def alignOwners : List String :=
    "vsg.rules.align_tokens_in_region_between_tokens_skipping_lines_starting_with_tokens.align_tokens_in_region_between_tokens_skipping_lines_starting_with_tokens",
    "vsg.rules.align_tokens_in_region_between_tokens_when_between_tokens_unless_between_tokens.align_tokens_in_region_between_tokens_when_between_tokens_unless_between_tokens"]
 
+/-- owners of `token_indent._fix_violation` (the `token_indent_*` variants inherit it unchanged and
+    never own it in the rule table; they are listed for completeness) -/
+def indentOwners : List String :=
+  ["vsg.rules.token_indent.token_indent",
+   "vsg.rules.token_indent_between_tokens.token_indent_between_tokens",
+   "vsg.rules.token_indent_between_tokens_unless_between_tokens.token_indent_between_tokens_unless_between_tokens",
+   "vsg.rules.token_indent_unless_between_tokens.token_indent_unless_between_tokens"]
+
+def blankBelowOwners : List String :=
+  ["vsg.rules.blank_line_below_line_ending_with_token.blank_line_below_line_ending_with_token"]
+
+def blankAboveOwners : List String :=
+  ["vsg.rules.previous_line.previous_line",
+   "vsg.rules.blank_line_above_line_starting_with_token.blank_line_above_line_starting_with_token"]
+
+def excessAboveOwners : List String :=
+  ["vsg.rules.remove_excessive_blank_lines_above_line_starting_with_token.remove_excessive_blank_lines_above_line_starting_with_token"]
+
+def excessBelowOwners : List String :=
+  ["vsg.rules.remove_excessive_blank_lines_below_line_ending_with_token.remove_excessive_blank_lines_below_line_ending_with_token"]
+
+def removeAboveOwners : List String :=
+  ["vsg.rules.remove_blank_lines_above_line_starting_with_token.remove_blank_lines_above_line_starting_with_token"]
+
+def ws200Owners : List String := ["vsg.rules.whitespace.rule_200.rule_200"]
+
+def betweenPairsOwners : List String :=
+  ["vsg.rules.blank_lines_between_token_pairs.blank_lines_between_token_pairs"]
+
+/-- every owner of the vertical-spacing family -/
+def blankLineOwners : List String :=
+  blankBelowOwners ++ blankAboveOwners ++ excessAboveOwners ++ excessBelowOwners ++ removeAboveOwners ++
+    ws200Owners ++ betweenPairsOwners
+
 def needInt (kv : KV) (k : String) : Except PyErr Int :=
   match kv.int? k with
   | some i => .ok i
   | none => .error (.keyError k)
 
+def needStr (kv : KV) (k : String) : Except PyErr Str :=
+  match kv.str? k with
+  | some s => .ok s
+  | none => .error (.keyError k)
+
+/-- the indent oracle of the harvested tokens: action key `_indents` = list of int / None, one per
+    token of interest (a position outside the list reads as `None`) -/
+def indentOracle (action : KV) : Nat → Option Int :=
+  match action.get "_indents" with
+  | some (.list vs) => fun i => match vs[i]? with | some (.int k) => some k | _ => none
+  | _ => fun _ => none
+
+/-- a plain-string action arrives under the key `_str`; any other action object is not equal to
+    any string literal -/
+def strAction (action : KV) : Str :=
+  match action.get "_str" with
+  | some (.str s) => s
+  | _ => []
+
+/-- the action object is a dict (a string arrives under `_str`, `None` under `_none`, anything else
+    under `_other`: subscripting those with a string key raises TypeError) -/
+def actionIsDict (action : KV) : Bool :=
+  (action.get "_str").isNone && (action.get "_none").isNone && (action.get "_other").isNone
+
+/-- `dAction["action"]` of the blank-line rules: TypeError if the action is not a dict, KeyError if the
+    key is absent; a non-string value compares unequal to "Insert" and "Remove" (modelled by the empty
+    string) -/
+def dictAction (action : KV) : Except PyErr Str :=
+  if !actionIsDict action then .error .typeError else
+  match action.get "action" with
+  | none => .error (.keyError "action")
+  | some (.str s) => .ok s
+  | some _ => .ok []
+
+/-- `dAction[k]` used as a slice bound: an int, or `None` (a legal slice bound); anything else: TypeError -/
+def actBound (action : KV) (k : String) : Except PyErr (Option Int) :=
+  if !actionIsDict action then .error .typeError else
+  match action.get k with
+  | none => .error (.keyError k)
+  | some (.int i) => .ok (some i)
+  | some .none => .ok none
+  | some _ => .error .typeError
+
+/-- `2 * dAction[k]` used as a slice bound: `2 * None` is a TypeError -/
+def actTwice (action : KV) (k : String) : Except PyErr Int := do
+  match (← actBound action k) with
+  | some i => pure i
+  | none => throw .typeError
+
 /-- the model of `owner._fix_violation` applied to the tokens of interest -/
-def fixByOwner (owner : String) (_params action : KV) (old : List Tok) : Option (Except PyErr (List Tok)) :=
+def fixByOwner (owner : String) (params action : KV) (old : List Tok) : Option (Except PyErr (List Tok)) :=
   if owner ∈ alignOwners then
     some (do
       let ti ← needInt action "token_index"
       let adj ← needInt action "adjust"
       Align.fixV Gen.wsCls ti adj old)
+  else if owner ∈ indentOwners then
+    some (do
+      let size ← needInt params "indent_size"
+      let style ← needStr params "indent_style"
+      Indent.fixV Gen.wsCls style size (strAction action) (indentOracle action) old)
+  else if owner ∈ blankBelowOwners then
+    some (do
+      let a ← dictAction action
+      BlankLine.belowFixV Gen.crCls Gen.blankCls a old)
+  else if owner ∈ blankAboveOwners then
+    some (do
+      let a ← dictAction action
+      BlankLine.aboveFixV Gen.crCls Gen.blankCls a old)
+  else if owner ∈ excessAboveOwners then
+    some (do
+      let i ← actBound action "index"
+      BlankLine.excessAboveFixV i old)
+  else if owner ∈ excessBelowOwners then
+    some (do
+      let r ← actTwice action "remove"
+      BlankLine.excessBelowFixV r old)
+  else if owner ∈ removeAboveOwners then
+    some (do
+      let i ← actBound action "remove_to_index"
+      BlankLine.removeAboveFixV i old)
+  else if owner ∈ ws200Owners then
+    some (do
+      let r ← actTwice action "remove"
+      BlankLine.ws200FixV r old)
+  else if owner ∈ betweenPairsOwners then
+    some (BlankLine.betweenPairsFixV old)
+  else if owner ∈ wsOwners then wsFixByOwner owner params action old
   else none
 
 end Vsgm.Base
